@@ -211,9 +211,9 @@ def fragile(case, ir, mr):
         # the running sd enters through f/sd: for almost constant data (values differing by less than 1e-6 relative)
         # the float running variance has few correct digits, and with it the estimate
         vals_ = [F(v) for v in case["x"]]
-        for j in range(2, len(vals_) + 1):
-            head = vals_[:j]
-            lo, hi = min(head), max(head)
+        lo = hi = vals_[0]
+        for v_ in vals_[1:]:
+            lo, hi = min(lo, v_), max(hi, v_)
             if lo != hi and (hi - lo) < F(1, 10 ** 6) * max(abs(hi), F(1)):
                 return True
     if case["op"] == "test" and fragile_cancel(case, mr):
@@ -286,8 +286,9 @@ def fragile_bet(case):
         # all equal to the adjusted null mean; in floats the rounding of t_adj decides between 0 and the cap c/t_adj
         mus_ = null_means(init["N"], F(init["t"]), xs_)
         for j in range(1, len(xs_)):
-            head = xs_[:j]
-            if len(set(head)) == 1 and head[0] == mus_[j]:
+            if xs_[j - 1] != xs_[0]:
+                break                             # the draws so far are no longer all equal
+            if xs_[0] == mus_[j]:
                 return True
     for m in null_means(init["N"], F(init["t"]), xs_):
         if (m != 0 and abs(m) < F(1, 10 ** 9)) or (m == 0 and not exact):
@@ -967,7 +968,39 @@ def rescaled(rng, tier):
     return None
 
 
+def gen_long(rng, tier):
+    """estimators and bets on LONG samples (1 000 - 1 300 and 10 001 - 10 400 draws; samples of that size arise as the
+    tiled populations of sample_size and in audits of large contests): whatever a function does differently for long
+    inputs, its value at draw j is still a function of the first j - 1 draws.  Only `estim` / `bet` (the exact product
+    of ten thousand factors is left to the shorter samples)."""
+    op = rng.choice(["estim", "bet", "bet"])
+    n = rng.choice([rng.randint(1001, 1300), rng.randint(10001, 10400), rng.randint(10001, 10400)])
+    u = rng.choice([F(1), F(1), F(2), F(5, 4)])
+    t = rng.choice([F(1, 2), F(1, 2), F(3, 8)])
+    N = rng.choice([None, 2 * n, n + 7, 10 * n])
+    vals = [F(0), u, u / 2, u / 4, 3 * u / 4, t]
+    # mostly constant stretches with occasional changes: the running variance moves at known places
+    x, cur = [], rng.choice(vals)
+    for _ in range(n):
+        if rng.chance(0.02):
+            cur = rng.choice(vals)
+        x.append(cur if rng.chance(0.9) else rng.choice(vals))
+    if op == "estim":
+        test, estim, bet = "alpha_mart", rng.choice(["shrink_trunc", "shrink_trunc", "fixed_alternative_mean"]), None
+        kw = {"eta": (t + u) / 2, "f": rng.choice([F(1, 2), F(1, 100), F(2)]), "d": rng.choice([F(10), F(100)])} \
+            if estim == "shrink_trunc" else {"eta": (t + u) / 2}
+    else:
+        test, estim, bet = "betting_mart", None, rng.choice(["agrapa", "agrapa", "fixed_bet"])
+        kw = {"lam": F(1, 2) / u}
+    init = {"test": test, "estim": estim, "bet": bet, "u": S(u), "N": N, "t": S(t), "ro": True,
+            "kw": {k: S(v) for k, v in kw.items()}, "u_now": None}
+    return {"op": op, "init": init, "x": [S(v) for v in x], "stream": f"long:{estim or bet}:{'10k' if n > 10000 else '1k'}"}
+
+
 def gen_extra(rng, tier):
+    r = rng.random()
+    if r < 0.05:
+        return gen_long(rng, tier)
     r = rng.random()
     if r < 0.18:
         return gen_reassigned(rng, tier)
